@@ -15,7 +15,8 @@
 //         10 slot      is futures[slot] ready?   -1 no future, 0 not ready, 1 ready
 //         11 slot      futures[slot].get() without blocking: -1 no future, -2 not ready, -3 the functor threw,
 //                      -4 any other exception (broken promise), otherwise the value
-// functor fid: vs::user_call(fid); x.write(x.read() * 16 + fid); (modify_async: returns the new value)
+// functor fid: vs::user_call(fid); x.write(apply_f(fid, x.read())); (modify_async: returns the new value)
+//   apply_f(fid, v) = 16 v + fid for fid < 100 (payload = log of the applied functors), = fid otherwise (long bursts)
 #include "vstd.hpp"
 #include "vpay.hpp"
 #define std vstd
@@ -23,6 +24,7 @@
 #include "gmlc/libguarded/deferred_guarded.hpp"
 #undef private
 #undef std
+#define VS_OWN_OPERATOR_NEW  // this driver replaces the global operator new / delete itself (see below)
 #include "driver.hpp"
 
 // Object ids in the trace are assigned per address.  The library frees each task runner (and with it the
@@ -43,6 +45,7 @@ void* operator new(std::size_t n)
 {
     void* p = std::malloc(n ? n : 1);
     if (p == nullptr) throw std::bad_alloc();
+    std::memset(p, 0xA5, n);  // as driver.hpp does: fresh storage does not read as 0 / false
     return p;
 }
 void* operator new[](std::size_t n) { return operator new(n); }
@@ -61,6 +64,7 @@ void operator delete[](void* p, std::size_t) noexcept { operator delete(p); }
 
 namespace {
 using vs::VPay;
+inline long apply_f(long fid, long v) { return fid < 100 ? v * 16 + fid : fid; }
 
 struct IInst {
     virtual ~IInst() = default;
@@ -120,7 +124,7 @@ struct Inst: IInst {
                 long fid = o[1];
                 dg.modify_detach([fid](VPay& x) {
                     vs::user_call(fid);
-                    x.write(x.read() * 16 + fid);
+                    x.write(apply_f(fid, x.read()));
                 });
                 return 0;
             }
@@ -129,7 +133,7 @@ struct Inst: IInst {
                 // the old future of the slot (if any) is dropped when the call has returned
                 std::future<long> fut = dg.modify_async([fid](VPay& x) -> long {
                     vs::user_call(fid);
-                    long v = x.read() * 16 + fid;
+                    long v = apply_f(fid, x.read());
                     x.write(v);
                     return v;
                 });
